@@ -54,6 +54,8 @@ structure InOpts where
   mapping : Bool := false
   noPush : Bool := false
   prefix_ : Option Text := none
+  /-- skip_unauthorized: items the item guard refuses are left out instead of raising -/
+  skipUnauth : Bool := false
   deriving Repr, Inhabited
 
 inductive Blk where
@@ -113,6 +115,8 @@ structure Env where
   /-- security guard installed? and the (object, attribute) pairs it refuses -/
   guardOn : Bool := false
   denied : List (Nat × Text) := []
+  /-- objects the item guard (guarded_getitem) refuses to hand out as elements of a sequence -/
+  deniedItems : List Nat := []
   /-- fault injection: the k-th invocations of any callable (0-based, counted over the whole call) raise -/
   faults : List Nat := []
   faultExc : Exc := ⟨"ValueError".toList, "fault".toList⟩
@@ -335,7 +339,8 @@ def frameGet (env : Env) (f : Frame) (key : Text) (tr : List Event) : Found × L
         match v with
         | .obj id attrs =>
           -- the guard (when installed) is asked first, whether or not the attribute exists
-          let tr := if env.guardOn then tr ++ [.guard id key] else tr
+          -- (object 0 is the engine's own error namespace of dtml-try, not client data)
+          let tr := if env.guardOn && id != 0 then tr ++ [.guard id key] else tr
           if env.guardOn && isDenied env id key then (.raise (unauthorized key), tr)
           else
             (match attrs.lookup key with
@@ -482,6 +487,18 @@ def join2 (env : Env) (p q : Piece) (st : St) : Res (List Piece) × St :=
   | .raise e => (.raise e, st)
   | _ => (.oom, st)
 
+/-- what dtml-var does with the value once it has it: null replacement, html quoting, insertion -/
+def insertVal (env : Env) (hq : Bool) (null : Option Text) (v : Val) (st : St) : Res (List Piece) × St :=
+  let one (p : Piece) : List Piece := if pieceEmpty p then [] else [p]
+  if null.isSome && !truthy v && (match v with | .int _ => false | .bool _ => false | _ => true) then
+    (.ok (one (.text (null.getD []))), st)
+  else if hq then
+    (match htmlQuote env (pieceOfVal v) with
+     | .ok p => (.ok (one p), st)
+     | .raise e => (.raise e, st)
+     | _ => (.oom, st))
+  else (.ok (one (pieceOfVal v)), st)
+
 mutual
 
 /-- `md.getitem(key, call)` -/
@@ -587,6 +604,16 @@ def evalSrc (env : Env) : Nat → Src → St → Res Val × St
   | fuel + 1, .name n, st => getitem env fuel n true st
   | fuel + 1, .expr e, st => evalExpr env fuel e st
 
+/-- dtml-var: obtain the value (`md[name]` calls callables / renders templates; an expression is evaluated) and insert it -/
+def fetchVar (env : Env) : Nat → Src → Bool → Option Text → St → Res (List Piece) × St
+  | 0, _, _, _, st => (.oom, st)
+  | fuel + 1, src, hq, null, st =>
+    match evalSrc env fuel src st with
+    | (.ok v, st') => insertVal env hq null v st'
+    | (.raise e, st') => (.raise e, st')
+    | (.ret v, st') => (.ret v, st')
+    | (.oom, st') => (.oom, st')
+
 /-- render the blocks in order, collecting the non-empty pieces -/
 def renderBlocks (env : Env) : Nat → List Blk → St → Res (List Piece) × St
   | 0, _, st => (.oom, st)
@@ -652,6 +679,19 @@ def condLoop (env : Env) : Nat → List (Src × List Blk) → Option (List Blk) 
        | (.ret v, st') => (.ret v, st')
        | (.oom, st') => (.oom, st'))
 
+/-- does the item guard refuse element `i`? (only asked when a guard is installed) -/
+def itemDenied (env : Env) (sv : SeqVars) (i : Nat) : Bool :=
+  env.guardOn && (match sv.items[i]? with
+    | some (.obj id _) => env.deniedItems.contains id
+    | _ => false)
+
+/-- `sequence-start` at element `i`: set before the loop, cleared after element 0 has been rendered
+— or when element 1 is skipped as unauthorized (so it stays set while a refused first element
+is being skipped) -/
+def startedAt (env : Env) (o : InOpts) (sv : SeqVars) (i : Nat) : Bool :=
+  if i == 0 then true
+  else o.skipUnauth && itemDenied env sv 0 && !(decide (i ≥ 2) && itemDenied env sv 1)
+
 /-- one iteration of dtml-in: the item is pushed (unless no_push_item / a string), the body rendered -/
 def inIter (env : Env) : Nat → SeqVars → InOpts → List Blk → Nat → St → Res Piece × St
   | 0, _, _, _, _, st => (.oom, st)
@@ -671,8 +711,14 @@ def inLoop (env : Env) : Nat → SeqVars → InOpts → List Blk → Nat → St 
   | fuel + 1, sv, o, body, i, st =>
     if i ≥ sv.items.length then (.ok [], st)
     else
+      -- with a guard installed every element is fetched through guarded_getitem(sequence, index)
+      let st := if env.guardOn then { st with trace := st.trace ++ [.gitem 0 i] } else st
+      if itemDenied env sv i then
+        if o.skipUnauth then inLoop env fuel sv o body (i + 1) st
+        else (.raise ⟨"Unauthorized".toList, "item".toList⟩, st)
+      else
       -- pkw['sequence-end'], pkw['sequence-index']: the sequence-variables frame is the top frame
-      let sv' := { sv with index := i, ended := sv.ended || i + 1 == sv.items.length, started := i == 0 }
+      let sv' := { sv with index := i, ended := sv.ended || i + 1 == sv.items.length, started := startedAt env o sv i }
       let st1 := match st.stack with
         | .seq _ :: fs => { st with stack := .seq sv' :: fs }
         | _ => st
@@ -705,23 +751,19 @@ def renderBlk (env : Env) : Nat → Blk → St → Res (List Piece) × St
     | .lit s => (.ok (one (.text s)), st)
     | .comment => (.ok [], st)
     | .var src hq missing null =>
-      (match evalSrc env fuel src st with
-       | (.ok v, st') =>
-         if null.isSome && !truthy v && (match v with | .int _ => false | .bool _ => false | _ => true) then
-           (.ok (one (.text (null.getD []))), st')
-         else if hq then
-           (match htmlQuote env (pieceOfVal v) with
-            | .ok p => (.ok (one p), st')
-            | .raise e => (.raise e, st')
-            | _ => (.oom, st'))
-         else (.ok (one (pieceOfVal v)), st')
-       | (.raise e, st') =>
-         (match src, missing with
-          | .name n, some m =>
-            if e.cls = "KeyError".toList && e.msg = n then (.ok (one (.text m)), st') else (.raise e, st')
-          | _, _ => (.raise e, st'))
-       | (.ret v, st') => (.ret v, st')
-       | (.oom, st') => (.oom, st'))
+      (match src with
+       | .name n =>
+         if missing.isSome || null.isSome then
+           -- Var.render (the full path): `if name in md:` — a lookup that calls nothing — then `md[name]`
+           (match lookupStack env st.stack n st.trace with
+            | (.missing, tr) =>
+              (match missing with
+               | some m => (.ok (one (.text m)), { st with trace := tr })
+               | none => (.raise (keyError n), { st with trace := tr }))
+            | (.raise e, tr) => (.raise e, { st with trace := tr })
+            | (.val _ stack', tr) => fetchVar env fuel src hq null { st with stack := stack', trace := tr })
+         else fetchVar env fuel src hq null st       -- the simple forms: one `md[name]`
+       | .expr _ => fetchVar env fuel src hq null st)
     | .call src =>
       -- ('i', expr, None): one condition, no body
       let (r, st') := condLoop env fuel [(src, [])] none { st with stack := .dict [] :: st.stack }
